@@ -134,6 +134,18 @@ def _verify_instance(eng: Engine, c: Contract, src: source.FuncSrc, prop: str, i
 		st.env[g] = v
 		fn.want.append(str(v.term))
 		fn.inputs[str(v.term)] = gt  # type: ignore[assignment]
+	# list / dict parameters mutated in place are visible to the caller: they must be listed under `modifies`
+	from .ty import TDict, TList
+	MUT = {'append', 'extend', 'insert', 'pop', 'remove', 'clear', 'update', 'sort', 'reverse', 'setdefault', 'popitem'}
+	for pname, pty in ptys.items():
+		if isinstance(pty, (TList, TDict)) and pname not in c.modifies and not c.hook_only:
+			for n in ast.walk(src.node):
+				hit = isinstance(n, ast.Call) and isinstance(n.func, ast.Attribute) and isinstance(n.func.value, ast.Name) and n.func.value.id == pname and n.func.attr in MUT
+				if isinstance(n, (ast.Assign, ast.AugAssign, ast.Delete)):
+					tg = n.targets if not isinstance(n, ast.AugAssign) else [n.target]
+					hit = hit or any(isinstance(t, ast.Subscript) and isinstance(t.value, ast.Name) and t.value.id == pname for t in tg)
+				if hit:
+					raise EngineError(f'{fn.label} mutates its parameter {pname} in place: list it under modifies')
 	if c.hook_only:
 		if c.post_hook is not None:
 			c.post_hook(eng, fn, st.copy())
